@@ -70,6 +70,9 @@ func (e *Engine) verifyFunc(key string) (res *FuncResult) {
 		}
 		if sv, ok := v.(*SliceV); ok {
 			vc.assert(Le(sv.Arr, al0))
+			// slice parameters are modelled as offset-0 views of their backing store
+			sv.Off = I(0)
+			vc.assume("slice parameters are offset-0 views: two slice arguments are either the same view or disjoint (no partially overlapping slice arguments)")
 		}
 		fr.env[p] = v
 		fr.params = append(fr.params, v)
@@ -107,6 +110,21 @@ func (e *Engine) verifyFunc(key string) (res *FuncResult) {
 		}
 	}
 	fr.runRegion(nil, fn.Blocks[0], tTrue, st, nil)
+	// vacuity guard: every call-site clause of the contract must have matched a real call site
+	for _, k := range sortedKeys(ct.CallAsserts) {
+		if !vc.firedSites[k] {
+			var tags []string
+			for _, cl := range ct.CallAsserts[k] {
+				tags = append(tags, cl.Tags...)
+			}
+			vc.oblige("callsite", sanitize(k), "the call site '"+k+"' named by the contract exists on a reachable path (it carries an asserted clause)", tags, e.posString(fn.Pos()), tTrue, tFalse)
+		}
+	}
+	for _, k := range sortedKeys(ct.CallSets) {
+		if !vc.firedSites[k] {
+			vc.oblige("callsite", sanitize(k)+".set", "the call site '"+k+"' named by the contract exists on a reachable path (it carries a ghost update)", nil, e.posString(fn.Pos()), tTrue, tFalse)
+		}
+	}
 	if len(fr.rets) == 0 {
 		vc.warn("function %s has no reachable return", key)
 		res.finish()
@@ -252,7 +270,7 @@ func (fs *frameSpec) frameGoal(vc *VC, k string, entry, cur, al0 T) (T, bool) {
 		for _, r := range fs.locs[k] {
 			ex = append(ex, fmt.Sprintf("(not (= r %s))", r.S))
 		}
-		return T{fmt.Sprintf("(forall ((r Int)) (! (=> (and (< 0 r) (<= r %s) %s) (= (select %s r) (select %s r))) :pattern ((select %s r))))", al0.S, strings.Join(ex, " "), cur.S, entry.S, cur.S), SBool}, true
+		return T{fmt.Sprintf("(forall ((r Int)) (! (=> (and (< 0 (root r)) (<= (root r) %s) %s) (= (select %s r) (select %s r))) :pattern ((select %s r))))", al0.S, strings.Join(ex, " "), cur.S, entry.S, cur.S), SBool}, true
 	case strings.HasPrefix(k, "Elem_") || strings.HasPrefix(k, "MapDom_") || strings.HasPrefix(k, "MapVal_"):
 		var ex []string
 		for _, r := range fs.elemArrs[k] {
@@ -357,6 +375,8 @@ func (e *Engine) prelude() string {
 	sb.WriteString("(set-option :produce-models true)\n(set-logic ALL)\n")
 	sb.WriteString("(define-fun tdiv ((a Int) (b Int)) Int (ite (>= a 0) (ite (> b 0) (div a b) (- (div a (- b)))) (ite (> b 0) (- (div (- a) b)) (div (- a) (- b)))))\n")
 	sb.WriteString("(define-fun tmod ((a Int) (b Int)) Int (- a (* b (tdiv a b))))\n")
+	// root(r): the allocation a (possibly interior) address belongs to; plain references are positive, interior addresses negative
+	sb.WriteString("(declare-fun rootneg (Int) Int)\n(define-fun root ((r Int)) Int (ite (> r 0) r (rootneg r)))\n")
 	sb.WriteString("(define-fun rd_be32 ((a (Array Int Int)) (o Int)) Int (+ (* 16777216 (select a o)) (* 65536 (select a (+ o 1))) (* 256 (select a (+ o 2))) (select a (+ o 3))))\n")
 	sb.WriteString("(define-fun rd_le32 ((a (Array Int Int)) (o Int)) Int (+ (* 16777216 (select a (+ o 3))) (* 65536 (select a (+ o 2))) (* 256 (select a (+ o 1))) (select a o)))\n")
 	sb.WriteString("(define-fun rd_be16 ((a (Array Int Int)) (o Int)) Int (+ (* 256 (select a o)) (select a (+ o 1))))\n")
